@@ -7,6 +7,7 @@
 #include "hcommon.hpp"
 #include "hgen.hpp"
 #include "evaluate.hpp"
+#include "endGameEval.hpp"
 #include "search.hpp"
 #include "transpositionTable.hpp"
 #include "history.hpp"
@@ -231,6 +232,92 @@ int main(int argc, char** argv) {
                 }
             }
         }
+    } else if (mode == "endgame") {
+        // Symmetry of the endgame rules.  The rule functions (EndGameEval::endGameEval, no network involved, ~100 ns) are used to SCREEN
+        // n placements per material class for an asymmetry of the correction they apply; what is recorded and judged by the
+        // specification are complete evaluations: every screened candidate (capped) and a uniform sample of the rest.
+        static const char* classes[] = {"Q|P", "Q|", "R|P", "R|B", "RP|R", "RP|RP", "NN|", "NB|", "P|", "P|P", "BP|B", "BP|N", "NP|B", "NP|", "BB|N",
+                                        "RP|B", "RP|BP", "R|BP", "BP|", "B|P", "N|", "B|", "N|N", "B|B", "N|B", "QP|Q", "RB|R", "RN|R", "Q|R", "Q|RP", "PP|P",
+                                        "Q|RB", "Q|RN", "QP|RB", "Q|RBP", "Q|RNP", "R|N", "RP|N", "BPP|", "BPP|B", "BP|P", "BP|BP", "NP|N", "R|P"};
+        const int nClasses = (int)(sizeof(classes) / sizeof(classes[0]));
+        const int perClassSample = argc > 5 ? atoi(argv[5]) : 30;
+        long screened = 0, candidates = 0;
+        for (int ci = 0; ci < 2 * nClasses; ci++) {
+            std::string cls = classes[ci % nClasses];
+            std::string side[2] = {cls.substr(0, cls.find('|')), cls.substr(cls.find('|') + 1)};
+            if (ci >= nClasses) std::swap(side[0], side[1]);
+            std::vector<int> pcs = {Piece::WKING, Piece::BKING};
+            for (int c = 0; c < 2; c++)
+                for (char ch : side[c]) {
+                    int pc = ch == 'Q' ? Piece::WQUEEN : ch == 'R' ? Piece::WROOK : ch == 'B' ? Piece::WBISHOP : ch == 'N' ? Piece::WKNIGHT : Piece::WPAWN;
+                    pcs.push_back(c == 0 ? pc : pc + 6);
+                }
+            int cands = 0, sampled = 0;
+            for (int it = 0; it < n; it++) {
+                Position pos;
+                int sqs[8];
+                bool ok = true;
+                const bool cluster = rnd.nextInt(2) == 0;      // pieces huddle around the first pawn (fortress / blockade patterns)
+                int anchor = -1;
+                for (size_t k = 0; k < pcs.size() && ok; k++) {
+                    bool pawn = pcs[k] == Piece::WPAWN || pcs[k] == Piece::BPAWN;
+                    int sq = -1;
+                    for (int t = 0; t < 30; t++) {
+                        int c = rnd.nextInt(64);
+                        if (pawn && (c < 8 || c >= 56)) continue;
+                        bool clash = false;
+                        for (size_t q = 0; q < k; q++) clash |= sqs[q] == c;
+                        if (!clash) { sq = c; break; }
+                    }
+                    if (sq < 0) { ok = false; break; }
+                    sqs[k] = sq;
+                }
+                if (!ok) continue;
+                // anchor: the first pawn (else the first piece); two thirds of the other non-pawn men are re-drawn within two squares of it
+                for (size_t k = 2; k < pcs.size(); k++) if (pcs[k] == Piece::WPAWN || pcs[k] == Piece::BPAWN) { anchor = sqs[k]; break; }
+                if (anchor < 0 && pcs.size() > 2) anchor = sqs[2];
+                if (cluster && anchor >= 0) {
+                    for (size_t k = 0; k < pcs.size(); k++) {
+                        if (sqs[k] == anchor) continue;
+                        if (rnd.nextInt(3) == 0) continue;
+                        bool pawn = pcs[k] == Piece::WPAWN || pcs[k] == Piece::BPAWN;
+                        if (pawn) continue;
+                        for (int t = 0; t < 10; t++) {
+                            int x = anchor % 8 + rnd.nextInt(5) - 2, y = anchor / 8 + rnd.nextInt(5) - 2;
+                            if (x < 0 || x > 7 || y < 0 || y > 7) continue;
+                            int c = y * 8 + x;
+                            bool clash = false;
+                            for (size_t q = 0; q < pcs.size(); q++) clash |= q != k && sqs[q] == c;
+                            if (!clash) { sqs[k] = c; break; }
+                        }
+                    }
+                }
+                if (BitBoard::getKingDistance(Square(sqs[0]), Square(sqs[1])) < 2) continue;
+                for (size_t k = 0; k < pcs.size(); k++) pos.setPiece(Square(sqs[k]), pcs[k]);
+                pos.setWhiteMove(rnd.nextInt(2) == 0);
+                { Position chk(pos); chk.setWhiteMove(!pos.isWhiteMove()); if (MoveGen::inCheck(chk)) continue; }
+                screened++;
+                static const int scores[] = {60, -60, 350, -350, 900, -900, 2500, -2500};
+                bool cand = false;
+                Position mp = mirrored(pos), fp = flipped(pos);
+                for (int si = 0; si < 8 && !cand; si++) {
+                    int sc = scores[si];
+                    int a = EndGameEval::endGameEval<true>(pos, sc);
+                    cand = a != EndGameEval::endGameEval<true>(mp, sc) || a != -EndGameEval::endGameEval<true>(fp, -sc);
+                }
+                bool take = (cand && cands < 25) || (sampled < perClassSample && rnd.nextInt(std::max(1, n / (2 * perClassSample))) == 0);
+                if (!take) continue;
+                if (cand) { cands++; candidates++; } else sampled++;
+                int contempt = 0;
+                int v = freshEval(pos, contempt);
+                std::string a = evJ(pos, contempt, v, cand ? "endgame-class-screened" : "endgame-class-sample");
+                pairJ(os, "flip", a, evJ(fp, -contempt, freshEval(fp, -contempt), "flipped-fresh")); pairs++;
+                pairJ(os, "mirror", a, evJ(mp, contempt, freshEval(mp, contempt), "mirrored-fresh")); pairs++;
+                evals += 3;
+            }
+        }
+        printf("{\"mode\":\"endgame\",\"pairs\":%ld,\"evals\":%ld,\"hooked_evals\":0,\"screened\":%ld,\"candidates\":%ld}\n", pairs, evals, screened, candidates);
+        return 0;
     } else if (mode == "search") {
         verif::evalHook = evalHook;
         for (int sNo = 0; sNo < n; sNo++) {
